@@ -9,7 +9,9 @@ import (
 	"io"
 	"math"
 	"os"
+	"runtime"
 	"runtime/debug"
+	"strconv"
 	"strings"
 	"syscall"
 	"time"
@@ -19,12 +21,16 @@ import (
 	cg "verifharness/internal/codecgen"
 )
 
-// address-space limit of the child: every decode that stays within the documented limits
-// (50e6 vertices = 1.2 GB, 10e6 loops) fits; anything that asks for more dies here, not in the host.
-const childAddressSpace = 6 << 30
-
+// childMain: the address-space limit comes from the parent (os.Args[2]); every decode that stays
+// within the documented limits fits, anything that asks for more dies here, not in the host.
 func childMain() {
-	lim := syscall.Rlimit{Cur: childAddressSpace, Max: childAddressSpace}
+	as := uint64(3 << 30)
+	if len(os.Args) > 2 {
+		if v, err := strconv.ParseUint(os.Args[2], 10, 64); err == nil && v > 0 {
+			as = v
+		}
+	}
+	lim := syscall.Rlimit{Cur: as, Max: as}
 	syscall.Setrlimit(syscall.RLIMIT_AS, &lim)
 	debug.SetGCPercent(50)
 	in := bufio.NewReaderSize(os.Stdin, 1<<20)
@@ -41,7 +47,10 @@ func childMain() {
 		t0 := time.Now()
 		r := runOne(cg.Kind(hdr[0]), data)
 		r.Millis = time.Since(t0).Milliseconds()
-		if r.Millis > 200 {
+		// garbage of one input must not count against the address-space cap of the next
+		var ms runtime.MemStats
+		runtime.ReadMemStats(&ms)
+		if r.Millis > 200 || ms.HeapSys-ms.HeapReleased > 256<<20 {
 			debug.FreeOSMemory()
 		}
 		js, _ := json.Marshal(r)
